@@ -43,11 +43,12 @@ end
 
 def renMacro (ρ : String → String) (m : MacroDef) : MacroDef :=
   { params := renParams ρ m.params, body := renStmts ρ m.body, depth := m.depth }
-def renCaller (ρ : String → String) (c : CallerDef) : CallerDef := { body := renStmts ρ c.body, depth := c.depth }
+def renCaller (ρ : String → String) (c : CallerDef) : CallerDef := { body := renStmts ρ c.body, depth := c.depth, site := c.site }
 def renFrame (ρ : String → String) (f : Frame) : Frame :=
   { vars := renVars ρ f.vars, macros := f.macros.map (fun p => (ρ p.1, renMacro ρ p.2)),
     caller := f.caller.map (renCaller ρ), assigns := f.assigns.map ρ }
-def renSt (ρ : String → String) (st : St) : St := { frames := st.frames.map (renFrame ρ), ns := st.ns, quirk := st.quirk }
+def renSt (ρ : String → String) (st : St) : St :=
+  { frames := st.frames.map (renFrame ρ), ns := st.ns, quirk := st.quirk, sites := st.sites.map (List.map (renFrame ρ)) }
 
 def mapR (ρ : String → String) : R → R
   | .ok (st, out, sig) => .ok (renSt ρ st, out, sig)
@@ -435,8 +436,9 @@ theorem callFrame_ren (params : List (String × Option Expr)) (argVals : List Va
   simp [renFrame, renVars, List.map_reverse]
 
 omit hρ in
-theorem closureSt_ren (fr : List Frame) (d : Nat) (ns : List (List (String × Val))) (q : Bool) :
-    St.mk (closureFrames (List.map (renFrame ρ) fr) d) ns q = renSt ρ (St.mk (closureFrames fr d) ns q) := by
+theorem closureSt_ren (fr : List Frame) (d : Nat) (ns : List (List (String × Val))) (q : Bool) (sites : List (List Frame)) :
+    St.mk (closureFrames (List.map (renFrame ρ) fr) d) ns q (sites.map (List.map (renFrame ρ))) =
+      renSt ρ (St.mk (closureFrames fr d) ns q sites) := by
   simp [renSt, closureFrames_ren]
 
 omit hρ in
@@ -467,37 +469,36 @@ theorem callMacroWith_sim (rn rn' : Runner) (h : Sim ρ rn rn') (fuelA : Nat) (s
     | some m =>
       simp only [Option.map_some, renMacro, renList_length, renParams, List.length_map, usesCaller_ren]
       have hcs : (caller.map (renCaller ρ)).isSome = caller.isSome := by cases caller <;> rfl
-      rw [hcs, callerDepthMismatch_ren]
+      rw [hcs]
       split
       · rfl
       · split
         · rfl
-        · split
-          · rfl
-          · have e1 := callFrame_ren ρ m.params argVals caller fuelA m.body
-            have e2 := closureSt_ren ρ st1.frames m.depth st1.ns st1.quirk
-            show (match bindDefaults (renVars ρ ctxVars)
-                    ((St.mk (closureFrames (List.map (renFrame ρ) st1.frames) m.depth) st1.ns st1.quirk).push
-                      (Frame.mk (List.map (fun p => (p.1.1, p.2))
-                        ((List.map (fun p => (ρ p.1, renOpt ρ p.2)) m.params).zip argVals)).reverse []
-                        (caller.map (renCaller ρ)) (assignedIn fuelA (renStmts ρ m.body))))
-                    (List.drop argVals.length (List.map (fun p => (ρ p.1, renOpt ρ p.2)) m.params)) with
-                | Except.error e => Except.error e
-                | Except.ok stc =>
-                  match rn' stc (renStmts ρ m.body) with
-                  | Except.ok (st', out, _) => Except.ok (renSt ρ (St.mk st1.frames st'.ns st'.quirk), out)
-                  | Except.error e => Except.error e) = _
-            rw [e1, e2, push_ren, ← List.map_drop]
-            rw [show List.map (fun p => (ρ p.1, renOpt ρ p.2)) (List.drop argVals.length m.params) =
-                renParams ρ (List.drop argVals.length m.params) from rfl, bindDefaults_sim ρ hρ]
-            cases bindDefaults ctxVars _ (List.drop argVals.length m.params) with
+        · have e1 := callFrame_ren ρ m.params argVals caller fuelA m.body
+          have e2 := closureSt_ren ρ st1.frames m.depth st1.ns st1.quirk st1.sites
+          show (match bindDefaults (renVars ρ ctxVars)
+                  ((St.mk (closureFrames (List.map (renFrame ρ) st1.frames) m.depth) st1.ns st1.quirk
+                      (st1.sites.map (List.map (renFrame ρ)))).push
+                    (Frame.mk (List.map (fun p => (p.1.1, p.2))
+                      ((List.map (fun p => (ρ p.1, renOpt ρ p.2)) m.params).zip argVals)).reverse []
+                      (caller.map (renCaller ρ)) (assignedIn fuelA (renStmts ρ m.body))))
+                  (List.drop argVals.length (List.map (fun p => (ρ p.1, renOpt ρ p.2)) m.params)) with
+              | Except.error e => Except.error e
+              | Except.ok stc =>
+                match rn' stc (renStmts ρ m.body) with
+                | Except.ok (st', out, _) => Except.ok (renSt ρ (St.mk st1.frames st'.ns st'.quirk st1.sites), out)
+                | Except.error e => Except.error e) = _
+          rw [e1, e2, push_ren, ← List.map_drop]
+          rw [show List.map (fun p => (ρ p.1, renOpt ρ p.2)) (List.drop argVals.length m.params) =
+              renParams ρ (List.drop argVals.length m.params) from rfl, bindDefaults_sim ρ hρ]
+          cases bindDefaults ctxVars _ (List.drop argVals.length m.params) with
+          | error e => rfl
+          | ok stc =>
+            simp only [Except.map]
+            rw [h]
+            cases rn stc m.body with
             | error e => rfl
-            | ok stc =>
-              simp only [Except.map]
-              rw [h]
-              cases rn stc m.body with
-              | error e => rfl
-              | ok r => obtain ⟨st', out, sig⟩ := r; rfl
+            | ok r => obtain ⟨st', out, sig⟩ := r; rfl
 
 end
 
@@ -552,7 +553,8 @@ theorem forLoop_sim (rn rn' : Runner) (h : Sim ρ rn rn') (fuelA : Nat) (target 
                       (exprNames (renExpr ρ fe))) (renVars ρ ctxVars) (renExpr ρ fe) with
                    | Except.ok v => Except.ok
                        (St.mk (renSt ρ st).frames (renSt ρ st).ns
-                         (noteReads ((renSt ρ st).push (Frame.mk [(ρ target, item)] [] none [])) (exprNames (renExpr ρ fe))).quirk,
+                         (noteReads ((renSt ρ st).push (Frame.mk [(ρ target, item)] [] none [])) (exprNames (renExpr ρ fe))).quirk
+                         (renSt ρ st).sites,
                         truth v)
                    | Except.error err => Except.error
                        (err, (noteReads ((renSt ρ st).push (Frame.mk [(ρ target, item)] [] none []))
@@ -571,7 +573,7 @@ theorem forLoop_sim (rn rn' : Runner) (h : Sim ρ rn rn') (fuelA : Nat) (target 
       generalize noteReads (st.push (Frame.mk [(target, item)] [] none [])) (exprNames fe) = stf
       show _ = Except.map (fun r => (renSt ρ r.1, r.2))
         (match (match evalIn stf ctxVars fe with
-                | Except.ok v => Except.ok (St.mk st.frames st.ns stf.quirk, truth v)
+                | Except.ok v => Except.ok (St.mk st.frames st.ns stf.quirk st.sites, truth v)
                 | Except.error err => Except.error (err, stf.quirk)) with
          | Except.error err => Except.error err
          | Except.ok (st1, false) => forLoop rn ctxVars fuelA target (some fe) body st1 acc ran more
@@ -583,14 +585,15 @@ theorem forLoop_sim (rn rn' : Runner) (h : Sim ρ rn rn') (fuelA : Nat) (target 
       cases evalIn stf ctxVars fe with
       | error err => rfl
       | ok v =>
-        have hst : St.mk (renSt ρ st).frames (renSt ρ st).ns (renSt ρ stf).quirk = renSt ρ (St.mk st.frames st.ns stf.quirk) := rfl
+        have hst : St.mk (renSt ρ st).frames (renSt ρ st).ns (renSt ρ stf).quirk (renSt ρ st).sites =
+            renSt ρ (St.mk st.frames st.ns stf.quirk st.sites) := rfl
         simp only [hst]
         cases truth v with
         | false => exact forLoop_sim rn rn' h fuelA target (some fe) body more _ acc ran
         | true =>
           simp only
           rw [hbody]
-          cases inScope rn (St.mk st.frames st.ns stf.quirk) (Frame.mk [(target, item)] [] none (assignedIn fuelA body)) body with
+          cases inScope rn (St.mk st.frames st.ns stf.quirk st.sites) (Frame.mk [(target, item)] [] none (assignedIn fuelA body)) body with
           | error e => rfl
           | ok r =>
             obtain ⟨st', out, sig⟩ := r
@@ -671,19 +674,29 @@ theorem step_sim (rn rn' : Runner) (h : Sim ρ rn rn') (fuelA : Nat) (st : St) (
     | ok r => obtain ⟨st', out⟩ := r; rfl
   | callBlock n args body =>
     simp only [renStmt, step]
-    have := callMacroWith_sim ρ hρ ctxVars rn rn' h fuelA st n args (some (CallerDef.mk body st.frames.length))
-    have hc : Option.map (renCaller ρ) (some (CallerDef.mk body st.frames.length)) =
-        some (CallerDef.mk (renStmts ρ body) (renSt ρ st).frames.length) := by simp [renCaller, renSt]
-    rw [hc] at this
-    show (match callMacroWith rn' (renVars ρ ctxVars) fuelA (renSt ρ st) (ρ n) (renList ρ args)
-            (some (CallerDef.mk (renStmts ρ body) (renSt ρ st).frames.length)) with
-          | Except.ok (st', out) => Except.ok (st', out, Sig.normal)
+    -- the call site's scopes are pushed onto `sites` on both sides
+    have hst1 : (St.mk (renSt ρ st).frames (renSt ρ st).ns (renSt ρ st).quirk ((renSt ρ st).sites ++ [(renSt ρ st).frames])) =
+        renSt ρ (St.mk st.frames st.ns st.quirk (st.sites ++ [st.frames])) := by
+      simp [renSt]
+    have hlen : (renSt ρ st).sites.length = st.sites.length := by simp [renSt]
+    have := callMacroWith_sim ρ hρ ctxVars rn rn' h fuelA (St.mk st.frames st.ns st.quirk (st.sites ++ [st.frames])) n args
+      (some (CallerDef.mk body st.frames.length st.sites.length))
+    have hc : Option.map (renCaller ρ) (some (CallerDef.mk body st.frames.length st.sites.length)) =
+        some (CallerDef.mk (renStmts ρ body) (renSt ρ st).frames.length (renSt ρ st).sites.length) := by
+      simp [renCaller, renSt]
+    rw [hc, ← hst1] at this
+    show (match callMacroWith rn' (renVars ρ ctxVars) fuelA
+            (St.mk (renSt ρ st).frames (renSt ρ st).ns (renSt ρ st).quirk ((renSt ρ st).sites ++ [(renSt ρ st).frames])) (ρ n)
+            (renList ρ args) (some (CallerDef.mk (renStmts ρ body) (renSt ρ st).frames.length (renSt ρ st).sites.length)) with
+          | Except.ok (st', out) => Except.ok (St.mk st'.frames st'.ns st'.quirk (renSt ρ st).sites, out, Sig.normal)
           | Except.error err => Except.error err) = _
     rw [this]
-    show _ = mapR ρ (match callMacroWith rn ctxVars fuelA st n args (some (CallerDef.mk body st.frames.length)) with
-          | Except.ok (st', out) => Except.ok (st', out, Sig.normal)
+    show _ = mapR ρ (match callMacroWith rn ctxVars fuelA (St.mk st.frames st.ns st.quirk (st.sites ++ [st.frames])) n args
+            (some (CallerDef.mk body st.frames.length st.sites.length)) with
+          | Except.ok (st', out) => Except.ok (St.mk st'.frames st'.ns st'.quirk st.sites, out, Sig.normal)
           | Except.error err => Except.error err)
-    cases callMacroWith rn ctxVars fuelA st n args (some (CallerDef.mk body st.frames.length)) with
+    cases callMacroWith rn ctxVars fuelA (St.mk st.frames st.ns st.quirk (st.sites ++ [st.frames])) n args
+        (some (CallerDef.mk body st.frames.length st.sites.length)) with
     | error e => rfl
     | ok r => obtain ⟨st', out⟩ := r; rfl
   | callerOut =>
@@ -693,17 +706,22 @@ theorem step_sim (rn rn' : Runner) (h : Sim ρ rn rn') (fuelA : Nat) (st : St) (
     | none => rfl
     | some c =>
       simp only [Option.map_some, renCaller]
-      have e2 := closureSt_ren ρ st.frames c.depth st.ns st.quirk
-      show (match rn' ((St.mk (closureFrames (List.map (renFrame ρ) st.frames) c.depth) st.ns st.quirk).push
+      have hsite : (renSt ρ st).sites.getD c.site [] = (st.sites.getD c.site []).map (renFrame ρ) := by
+        simp only [renSt, List.getD_eq_getElem?_getD, List.getElem?_map]
+        cases st.sites[c.site]? <;> simp
+      have e2 : St.mk ((renSt ρ st).sites.getD c.site []) st.ns st.quirk (st.sites.map (List.map (renFrame ρ))) =
+          renSt ρ (St.mk (st.sites.getD c.site []) st.ns st.quirk st.sites) := by
+        rw [hsite]; rfl
+      show (match rn' ((St.mk ((renSt ρ st).sites.getD c.site []) st.ns st.quirk (st.sites.map (List.map (renFrame ρ)))).push
               (Frame.mk [] [] none (assignedIn fuelA (renStmts ρ c.body)))) (renStmts ρ c.body) with
-            | Except.ok (st', out, _) => Except.ok (renSt ρ (St.mk st.frames st'.ns st'.quirk), out, Sig.normal)
+            | Except.ok (st', out, _) => Except.ok (renSt ρ (St.mk st.frames st'.ns st'.quirk st.sites), out, Sig.normal)
             | Except.error err => Except.error err) = _
       rw [e2, emptyFrame, push_ren, h]
-      show _ = mapR ρ (match rn ((St.mk (closureFrames st.frames c.depth) st.ns st.quirk).push
+      show _ = mapR ρ (match rn ((St.mk (st.sites.getD c.site []) st.ns st.quirk st.sites).push
               (Frame.mk [] [] none (assignedIn fuelA c.body))) c.body with
-            | Except.ok (st', out, _) => Except.ok (St.mk st.frames st'.ns st'.quirk, out, Sig.normal)
+            | Except.ok (st', out, _) => Except.ok (St.mk st.frames st'.ns st'.quirk st.sites, out, Sig.normal)
             | Except.error err => Except.error err)
-      cases rn ((St.mk (closureFrames st.frames c.depth) st.ns st.quirk).push
+      cases rn ((St.mk (st.sites.getD c.site []) st.ns st.quirk st.sites).push
               (Frame.mk [] [] none (assignedIn fuelA c.body))) c.body with
       | error e => rfl
       | ok r => obtain ⟨st', out, sig⟩ := r; rfl
